@@ -129,6 +129,10 @@ class GItem:
         return "GItem(%r)" % (self.v,)
 
 
+class SetList(list):
+    """python list standing for a set that holds symbolic elements (only membership, add and len are used)"""
+
+
 def has_gitems(lst):
     return isinstance(lst, list) and any(isinstance(x, GItem) for x in lst)
 
